@@ -95,9 +95,14 @@ func (w *world) place(r *ref) {
 		if err := w.s.Cache.Put(context.Background(), cache.CAS, h, int64(len(r.data)), bytes.NewReader(r.data)); err != nil {
 			w.t.Fatal(err)
 		}
-		r.digest = &pb.Digest{Hash: h, SizeBytes: int64(len(r.data)) + int64(rapid.SampledFrom([]int{1, -1, 100}).Draw(w.t, "sizeDelta"))}
-		if r.digest.SizeBytes <= 0 {
+		// other stated sizes: one off, far off, and the two small constants 0 and 1
+		// (0 is a well-formed size; only the empty blob's hash goes with it)
+		r.digest = &pb.Digest{Hash: h, SizeBytes: int64(len(r.data)) + int64(rapid.SampledFrom([]int{1, -1, 100, -len(r.data), 1 - len(r.data)}).Draw(w.t, "sizeDelta"))}
+		if r.digest.SizeBytes < 0 || r.digest.SizeBytes == int64(len(r.data)) {
 			r.digest.SizeBytes = int64(len(r.data)) + 1
+		}
+		if r.digest.SizeBytes == 0 {
+			E.Label("wrongsize=stated-0")
 		}
 	case "absent":
 	}
